@@ -18,7 +18,7 @@ DEST = ('own', 'own-other-binding', 'foreign', 'suffix', 'prefix', None)
 AUD = {'none': (), 'me': ((SP_X,),), 'other': ((OTHER,),), 'me+other': ((SP_X, OTHER),),
        'me|other': ((SP_X,), (OTHER,)), 'other|me': ((OTHER,), (SP_X,)), 'empty': ((),),
        'substring': ((SP_X[:-2],),), 'superstring': ((SP_X + '/x',),), 'case': ((SP_X.upper(),),)}
-RECIP = ('own', 'entity', 'foreign', None)
+RECIP = ('own', 'entity', 'foreign', None, 'same-as-destination')
 
 
 def dest_value(d, binding):
@@ -36,7 +36,9 @@ def dest_value(d, binding):
     return None
 
 
-def recip_value(r, binding):
+def recip_value(r, binding, dest=None):
+    if r == 'same-as-destination':
+        return dest_value(dest, binding) or 'https://evil.example/acs'
     return {'own': OWN[binding][0], 'entity': SP_X, 'foreign': 'https://evil.example/acs', None: None}[r]
 
 
@@ -60,6 +62,8 @@ def docs(thorough):
                     continue
                 if a in ('substring', 'superstring', 'case') and (d != 'own' or r != 'own' or sirt != 'req1'):
                     continue
+                if r == 'same-as-destination' and (a != 'me' or sirt != 'req1' or enc):
+                    continue
                 if binding != BINDING_HTTP_POST and (a not in ('me', 'other') or r != 'own'):
                     continue
                 out.append(dict(binding=binding, enc=enc, irt=irt, scd=[sirt], dest=d, aud=a, recip=r))
@@ -70,7 +74,7 @@ def docs(thorough):
                         out.append(dict(binding=b2, enc=False, irt='req1', scd=['req1'], dest=d, aud='me', recip='own', prime=BINDING_HTTP_POST))
                 for d in DEST:
                     out.append(dict(binding=BINDING_HTTP_POST, enc=False, irt='req1', scd=['req1'], dest=d, aud='me', recip='own', prime=BINDING_HTTP_REDIRECT))
-            if thorough and not enc:
+            if not enc and (thorough or binding == BINDING_HTTP_POST):
                 # two confirmations; a leading non-bearer / data-less confirmation
                 for irt, s1, s2 in itertools.product(IRT, SCD_IRT, SCD_IRT):
                     out.append(dict(binding=binding, enc=enc, irt=irt, scd=[s1, s2], dest='own', aud='me', recip='own'))
@@ -87,7 +91,7 @@ def build(doc):
         if s == 'NODATA':
             confs.append(forge.confirmation(now, method='urn:oasis:names:tc:SAML:2.0:cm:sender-vouches', has_data=False))
         else:
-            confs.append(forge.confirmation(now, irt=s, recipient=recip_value(doc['recip'], b)))
+            confs.append(forge.confirmation(now, irt=s, recipient=recip_value(doc['recip'], b, doc['dest'])))
     a = dict(confirmations=confs, audiences=AUD[doc['aud']])
     r = dict(irt=doc['irt'], dest=dest_value(doc['dest'], b))
     return forge.build(now, resp=r, assertions=[a], sign_resp='idpA', encrypt='spXenc1' if doc['enc'] else None)
@@ -115,7 +119,7 @@ def required_reject(doc, allow, conv, regex):
     if any(SP_X not in r for r in auds):
         why.append('c-audience-restriction-does-not-list-me')
     if conv:
-        rv = recip_value(doc['recip'], b)
+        rv = recip_value(doc['recip'], b, doc['dest'])
         if rv is not None and rv != SP_X and rv not in OWN[b]:
             why.append('d-recipient-not-mine')
     return why
